@@ -35,6 +35,7 @@ def build():
 def assert_fact(u, f):
     if f == "define":
         u.define("new1 = 11 * a")
+        u.define("E = 17 * a")              # a twin, up to letter case, of the unit "e": the case-insensitive index gains an entry
     elif f == "group":
         u.get_group("g1").add_units("b")
     elif f == "context":
@@ -52,6 +53,13 @@ def observe(u):
         facts.add("define")
     except pint.UndefinedUnitError:
         pass
+    # the case-insensitive index is the registry's own as well: "E" is the new unit where it was defined, the old "e" elsewhere
+    try:
+        twin = (u.get_name("E", case_sensitive=False), u.get_name("e", case_sensitive=False))
+    except Exception as ex:
+        twin = ("EXC:" + type(ex).__name__,)
+    if twin != (("E", "e") if "define" in facts else ("e", "e")):
+        facts.add("case-insensitive-index:%s" % (twin,))
     views = ("b" in u.get_group("g1").members, "b" in u.get_group("g2").members, "b" in u.get_system("S").members)
     if all(views):
         facts.add("group")
@@ -315,6 +323,44 @@ def objects_roundtrip(chk, rng):
                     chk.diverge({"clause": "quantity-roundtrip", "how": how[:6], "magnitude": type(m).__name__}, {"before": repr(q), "after": repr(n)})
                 if how == "deepcopy" and isinstance(m, np.ndarray) and np.shares_memory(n.magnitude, q.magnitude):
                     chk.diverge({"clause": "deepcopy-shares-array"}, {"q": repr(q)})
+    # to_tuple / from_tuple in registries of another numeric type: exponents keep the registry's type, fractional ones included
+    for T in (F, Decimal):
+        ur = pint.UnitRegistry(non_int_type=T)
+        for un in ("meter ** (1/3)", "meter ** 0.1 / second", "kilometer ** 2", "meter ** (2/7) * second ** (-1/3)"):
+            chk.case(("from_tuple-typed", T.__name__, un))
+            try:
+                q0 = ur.Quantity(T(3), ur.parse_units(un))
+                q1 = ur.Quantity.from_tuple(q0.to_tuple())
+                ok = (q1 == q0) and dict(q1.unit_items()) == dict(q0.unit_items()) and all(type(v) is type(w) for v, w in zip(dict(q1.unit_items()).values(), dict(q0.unit_items()).values()))
+            except Exception as ex:
+                chk.diverge({"clause": "quantity-roundtrip-raises", "how": "tuple", "magnitude": T.__name__}, {"unit": un, "error": repr(ex)[:200]})
+                continue
+            if not ok:
+                chk.diverge({"clause": "quantity-roundtrip", "how": "tuple", "magnitude": T.__name__}, {"unit": un, "before": repr(q0), "after": repr(q1)})
+    # pint.Quantity / pint.Unit (the registry-less classes) belong to the application registry current when they are made: objects made
+    # before and after set_application_registry() are of different registries and do not combine
+    saved0 = pint.get_application_registry().get()
+    try:
+        r1, r2 = pint.UnitRegistry(), pint.UnitRegistry()
+        r2.define("smoot = 2 * meter")
+        pint.set_application_registry(r1)
+        a1, u1 = pint.Quantity(1.0, "meter"), pint.Unit("meter")
+        pint.set_application_registry(r2)
+        a2, u2 = pint.Quantity(1.0, "meter"), pint.Unit("meter")
+        for name, fn in (("add", lambda: a1 + a2), ("sub", lambda: a1 - a2), ("mul", lambda: a1 * a2), ("div", lambda: a1 / a2), ("floordiv", lambda: a1 // a2), ("lt", lambda: a1 < a2),
+                         ("unit-mul", lambda: u1 * u2), ("quantity-unit", lambda: a1 * u2), ("same", lambda: a2 + pint.Quantity(2.0, "meter"))):
+            chk.case(("application-registry-swap", name))
+            try:
+                fn()
+                res = "ok"
+            except ValueError:
+                res = "valueerr"
+            except Exception as ex:
+                res = "other:" + type(ex).__name__
+            if res != ("ok" if name == "same" else "valueerr"):
+                chk.diverge({"clause": "cross-registry-operation", "form": "registry-less-" + name, "observed": res}, {"form": name})
+    finally:
+        pint.set_application_registry(saved0)
     # unpickling attaches to the application registry and registers prefixed units there first
     src = pint.UnitRegistry()
     fresh_app = pint.UnitRegistry()
